@@ -25,7 +25,7 @@ import os
 from translate import TranslateError, REPO, GEN, _parse, _func, _write_if_changed
 
 CASTS = {"uint8", "uint16", "uint32", "uint64", "int", "int64"}
-BINOPS = {ast.Add: "+", ast.Sub: "-", ast.Mult: "*", ast.FloorDiv: "/", ast.Mod: "%", ast.RShift: ">>>", ast.LShift: "<<<"}
+BINOPS = {ast.Add: "+", ast.Sub: "-", ast.Mult: "*", ast.FloorDiv: "/", ast.Mod: "%", ast.RShift: ">>>", ast.LShift: "<<<", ast.BitAnd: "&&&"}
 CMPOPS = {ast.Eq: "=", ast.NotEq: "≠", ast.Lt: "<", ast.LtE: "≤", ast.Gt: ">", ast.GtE: "≥"}
 
 
@@ -64,6 +64,9 @@ class Sym:
                 return self.expr(n.args[0], st)
             if name in ("min", "max") and len(n.args) == 2:
                 return f"({name} {self.expr(n.args[0], st)} {self.expr(n.args[1], st)})"
+            if name in self.spec.get("calls", {}):
+                # a call to another translated kernel: becomes a call of its Lean counterpart
+                return "(" + self.spec["calls"][name] + " " + " ".join(self.expr(a, st) for a in n.args) + ")"
             raise TranslateError(f"unsupported call {ast.unparse(n)}")
         if isinstance(n, ast.BinOp) and type(n.op) in BINOPS:
             return f"({self.expr(n.left, st)} {BINOPS[type(n.op)]} {self.expr(n.right, st)})"
@@ -147,7 +150,7 @@ class Sym:
             st[b] = nm
             return f"let {nm} := {e}; {self._seq(rest, st)}"
         if isinstance(s, ast.Return):
-            if s.value is None:
+            if s.value is None or (isinstance(s.value, ast.Constant) and s.value.value is None):
                 return self._out(st)
             if isinstance(s.value, ast.Tuple):
                 vals = [self.expr(e, st) for e in s.value.elts]
@@ -221,6 +224,15 @@ KERNELS = {
                         opaque={"keys_match": "keys_match"},
                         outputs=["lhh", "lhh_count", "key_lens"], bools=["keys_match"], keys=["lhh", "other_lhh"],
                         doc="`heavyhitters._merge` — body of the cell loop after `keys_match` is computed"),
+    "queryStepLinear": dict(file="countmin.py", func="_query_linear", path=[("for", 0)], skip_first=1, params=["min_count", "cms"], outputs=["min_count"],
+                            doc="`_query_linear` — body of the row loop after the column is computed (running minimum)"),
+    "queryStepLog16": dict(file="countmin.py", func="_query_log16", path=[("for", 0)], skip_first=1, params=["min_count", "cms"], outputs=["min_count"],
+                           doc="`_query_log16` — body of the row loop after the column is computed"),
+    "queryStepLog8": dict(file="countmin.py", func="_query_log8", path=[("for", 0)], skip_first=1, params=["min_count", "cms"], outputs=["min_count"],
+                          doc="`_query_log8` — body of the row loop after the column is computed"),
+    "hllAdd": dict(file="hyperloglog.py", func="_add", path=[], skip_first=1, params=["hash_val", "m", "p", "registers"], outputs=["reg_idx", "registers"],
+                   calls={"_n_leading_zeros64": "nlz64"}, drop_return_none=True,
+                   doc="`hyperloglog._add` after the hash: register index, rank, max (the call of `_n_leading_zeros64` is the translated `nlz64`)"),
     "randNext": dict(file="countmin.py", func="_rand", path=[], params=["rand_ptr"], outputs=["rand_ptr"], stop_at_return=True,
                      opaque={}, doc="`_rand` — the pointer update (`rand_batch[:] = np.random.rand(2048)` is the refill, dropped)"),
     "addLinearScalar": dict(file="countmin.py", func="_add_linear", path=[], skip_first=1, params=["min_count", "value", "uint_maxval", "n_added_records"],
@@ -300,8 +312,8 @@ def translate_kernel(name, spec):
 
 
 GROUPS = {
-    "KernelsHll": ["nlz64", "hllMergeCell"],
-    "KernelsLin": ["mergeLinearCell", "addLinearScalar"],
+    "KernelsHll": ["nlz64", "hllMergeCell", "hllAdd"],
+    "KernelsLin": ["mergeLinearCell", "addLinearScalar", "queryStepLinear", "queryStepLog16", "queryStepLog8"],
     "KernelsHH": ["hhAddCell", "hhMergeCell"],
     "KernelsRand": ["randNext"],
 }
